@@ -27,7 +27,6 @@ def cases(chk):
         x = chk.rng.random()
         origin = "gen"
         if x < 0.2:          # malformed stream: an excluded node type inside some regions
-            k = chk.rng.randint(0, 3)
             tops = [n for n, l in enumerate(body) if not l.startswith("    ")]
             body.insert(chk.rng.choice(tops + [len(body)]), f"  print *, {prog.scalars[0]}")
             origin = "gen+codeblock"
@@ -47,7 +46,7 @@ def prepare(parsed, i, j, enter_data=False):
     if not excluded and nodes:
         region = parsed.export(nodes)
         lines.append(R.line("clauses", region))
-        if real != "refuse":
+        if isinstance(real, dict):
             try:
                 prefix = parsed.prefix(i)
             except minif.Unsupported:
@@ -74,6 +73,8 @@ def conclude(ctx, out):
         m = common.parse_sx(out[1])
         res["fwor"], res["cnr"] = m[3] == 1, m[4] == 1
     per, _ = parsed.queries()
+    if not isinstance(real, dict):
+        return res
     for g, o in zip(JUNK, out[2:2 + ctx["nexec"]]):
         acc, host = [R.split_values(per, v) for v in common.parse_sx(o)]
         named = set(sum(real.values(), []))
@@ -95,7 +96,7 @@ def check_region(parsed, i, j, enter_data=False):
 def classify(res):
     if not res["fails"]:
         return None
-    if res["real"] != res["model"] or res["real"] == "refuse":
+    if res["real"] != res["model"] or not isinstance(res["real"], dict):
         return None
     if res["fwor"] or not res["real"]["copyout"]:
         return None                                   # C13_partial says this cannot happen
@@ -161,11 +162,11 @@ def run(chk):
         dist["regions"] += 1
         agreed = res["real"] == res["model"]
         dist["model_agrees"] += agreed
-        dist["accepted" if res["real"] != "refuse" else "refused"] += 1
+        dist["accepted" if isinstance(res["real"], dict) else "refused"] += 1
         dist["FullyWrittenOrRead"] += bool(res["fwor"])
         dist["CopyoutNotRead"] += bool(res["cnr"])
         dist["executed"] += ctx["nexec"] > 0
-        nontriv = res["real"] == "refuse" or len(set(sum(res["real"].values(), []))) >= 2
+        nontriv = not isinstance(res["real"], dict) or len(set(sum(res["real"].values(), []))) >= 2
         chk.case(dict(case, real=res["real"]), nontrivial=nontriv, agreed=agreed)
         if res["fails"]:
             if classify(res):
